@@ -5,5 +5,6 @@ CONSTANTS
   MaxCalls = 8
   MaxEnt = 4
   AtomicForget = TRUE
+  RetryDeletes = FALSE
 INVARIANTS Inv_C15_BurstBound Inv_NoSpendOnDead
 CHECK_DEADLOCK FALSE
